@@ -1,4 +1,4 @@
-From Verif Require Import Lib.Base Roothash.Pool Roothash.PoolSpec Roothash.PoolProofs Roothash.PoolInv Roothash.Verify Roothash.VerifyProofs.
+From Verif Require Import Lib.Base Roothash.Pool Roothash.PoolSpec Roothash.PoolProofs Roothash.PoolInv Roothash.Verify Roothash.VerifyProofs Roothash.App Roothash.AppProofs.
 
 Theorem finalize_only_if_rule :
   forall (c : committee) (p : pool) (strag : N) (timeout : bool) (p' : pool) (sc : sched_commitment),
@@ -161,3 +161,91 @@ Theorem rank_priority_best_committed :
     hr (vrun b c (ops1 ++ VAdd vc :: ops2) new_pool) <= r.
 Proof. exact rank_priority_best_committed. Qed.
 Print Assumptions rank_priority_best_committed.
+
+(* ---- the roothash application's finalization (finalization.go, timeout.go, transactions.go) ---- *)
+
+Theorem app_second_process_never_detects :
+  forall (H : Z) (prm : rt_params) (c : committee) (p : pool) (st : rt_state) (timeout : bool),
+    try_finalize H prm c p st timeout <> TFErrDiscrepancy.
+Proof. exact app_second_process_never_detects. Qed.
+Print Assumptions app_second_process_never_detects.
+
+Theorem try_finalize_shape :
+  forall (H : Z) (prm : rt_params) (c : committee) (p : pool) (st : rt_state) (timeout : bool)
+         (st' : rt_state) (evs : list app_event),
+    try_finalize H prm c p st timeout = TFOk st' evs -> tf_shape H prm c p st timeout st' evs.
+Proof. exact try_finalize_shape. Qed.
+Print Assumptions try_finalize_shape.
+
+Theorem normal_block_only_if_rule :
+  forall (H : Z) (prm : rt_params) (c : committee) (p : pool) (st : rt_state) (timeout : bool)
+         (st' : rt_state) (evs : list app_event),
+    hr_entry_ok c p ->
+    try_finalize H prm c p st timeout = TFOk st' evs ->
+    In (EvFinalized (next_round_of st)) evs -> rs_htype st' = HNormal ->
+    exists sc ec,
+      snd (process c (fst (deciding H prm c p timeout)) (rp_strag prm) (snd (deciding H prm c p timeout))) = POk sc /\
+      sc_commit sc = Some ec /\
+      rs_root st' = lookup (ec_vote ec) (rp_roots prm) /\
+      rule c (rp_strag prm) (disc (fst (deciding H prm c p timeout))) sc.
+Proof. exact normal_block_only_if_rule. Qed.
+Print Assumptions normal_block_only_if_rule.
+
+Theorem failed_round_keeps_state_root :
+  forall (H : Z) (prm : rt_params) (c : committee) (p : pool) (st : rt_state) (timeout : bool)
+         (st' : rt_state) (evs : list app_event),
+    try_finalize H prm c p st timeout = TFOk st' evs ->
+    rs_htype st' = HRoundFailed -> In (EvFinalized (next_round_of st)) evs ->
+    rs_root st' = rs_root st /\ rs_round st' = next_round_of st /\
+    rs_pool st' = Some new_pool /\ rs_next_timeout st' = TimeoutNever.
+Proof. exact failed_round_keeps_state_root. Qed.
+Print Assumptions failed_round_keeps_state_root.
+
+Theorem state_root_changes_only_with_normal_block :
+  forall (H : Z) (prm : rt_params) (c : committee) (p : pool) (st : rt_state) (timeout : bool)
+         (st' : rt_state) (evs : list app_event),
+    try_finalize H prm c p st timeout = TFOk st' evs ->
+    rs_root st' <> rs_root st -> rs_htype st' = HNormal /\ rs_round st' = next_round_of st.
+Proof. exact state_root_changes_only_with_normal_block. Qed.
+Print Assumptions state_root_changes_only_with_normal_block.
+
+Theorem timeout_never_keeps_waiting :
+  forall (H : Z) (prm : rt_params) (c : committee) (p : pool) (st st' : rt_state) (evs : list app_event),
+    try_finalize H prm c p st true = TFOk st' evs ->
+    (forall r, ~ In (EvFinalized r) evs) ->
+    exists rank,
+      evs = [EvDiscrepancy (next_round_of st) rank true] /\
+      snd (process c p (rp_strag prm) true) = PDiscrepancy /\
+      rs_next_timeout st' = (H + rp_round_timeout prm * 15 / 10)%Z /\
+      rs_next_timeout st' <> H.
+Proof. exact timeout_never_keeps_waiting. Qed.
+Print Assumptions timeout_never_keeps_waiting.
+
+Theorem suspended_runtime_has_no_armed_timeout :
+  forall (prm : rt_params) (bs : list ablock) (round root : N),
+    rs_suspended (app_states prm (new_runtime round root) bs) = true ->
+    rs_next_timeout (app_states prm (new_runtime round root) bs) = TimeoutNever.
+Proof. exact suspended_runtime_has_no_armed_timeout. Qed.
+Print Assumptions suspended_runtime_has_no_armed_timeout.
+
+Theorem armed_timeout_only_for_active_runtime :
+  forall (prm : rt_params) (bs : list ablock) (st : rt_state),
+    armed_ok st -> armed_ok (app_states prm st bs).
+Proof. exact app_states_armed_ok. Qed.
+Print Assumptions armed_timeout_only_for_active_runtime.
+
+Theorem end_block_never_fails_on_inactive_runtime :
+  forall (prm : rt_params) (st : rt_state) (b : ablock),
+    armed_ok st -> (0 < ab_height b)%Z -> bo_halt (snd (app_block prm st b)) <> 1.
+Proof. exact end_block_never_fails_on_inactive_runtime. Qed.
+Print Assumptions end_block_never_fails_on_inactive_runtime.
+
+Theorem process_ignores_non_member_votes :
+  forall (c : committee) (p : pool) (sc sc' : sched_commitment) (strag : N) (timeout : bool),
+    aget (hr p) (scs p) = Some sc ->
+    sc_commit sc' = sc_commit sc ->
+    (forall n, is_member c n = true -> aget n (sc_votes sc') = aget n (sc_votes sc)) ->
+    outcome_code (process_inner c (mkPool (hr p) (aset (hr p) sc' (scs p)) (disc p)) strag timeout)
+    = outcome_code (process_inner c p strag timeout).
+Proof. exact process_ignores_non_member_votes. Qed.
+Print Assumptions process_ignores_non_member_votes.
